@@ -447,7 +447,9 @@ func mkMsg(flags uint8, hcap, ccap int) *vParser {
 	initw(1)
 	p := vNew()
 	p.parse = func(w int, buf []byte, offs int) (int, ErrorHdr) { return ParseSIPMsg(buf, offs, &m[w], flags) }
-	p.reset = func(w int) { m[w].Reset() }
+	// Reset deliberately keeps the caller-supplied buffer reference (Buf), as it
+	// keeps the caller-supplied arrays: the twin object gets the same one.
+	p.reset = func(w int) { m[w].Reset(); m[1-w].Buf = m[w].Buf }
 	p.same = func() bool { return msgSame(&m[0], &m[1]) }
 	p.sameObs = func() bool { return msgObs(&m[0], &m[1]) }
 	p.shifted = func(k int) bool {
